@@ -7,6 +7,7 @@ from outside (instance attributes / proxies), never in the repository:
   * broker.update is wrapped to know the timestamp being processed when an exception escapes,
   * the statistics dict of the run is kept reachable after a failed run.
 """
+import copy
 import datetime
 import math
 import warnings
@@ -229,8 +230,14 @@ def build_session(cfg, handler, universe=None):
     return session, signals
 
 
-def run_session(cfg, handler, universe=None):
-    """Runs the real session; never raises for errors of the code under test (recorded in Obs.error)."""
+def run_session(cfg, handler, universe=None, fresh=True):
+    """Runs the real session; never raises for errors of the code under test (recorded in Obs.error).
+
+    fresh=True (default): the session gets its own deep copy of the (never used) handler template, so a
+    run cannot depend on what earlier sessions asked the data source.  Only C18 passes fresh=False, to
+    explore exactly that dependence."""
+    if fresh:
+        handler = copy.deepcopy(handler)
     obs = Obs()
     session, signals = build_session(cfg, handler, universe)
     obs.session, obs.signals = session, signals
